@@ -168,7 +168,37 @@ func c11ProbeOutcome(tk *tokenizer.Tokenizer, p *parser.Parser) string {
 	if err != nil {
 		return "parseerr:" + err.Error()
 	}
-	return dump.Tree(a).String()
+	out := dump.Tree(a).String()
+	// second probe: the deepest nesting a fresh parser accepts; a single recursion level left behind by the cancelled
+	// call makes the used parser reject it
+	tk.Reset()
+	toks, err = tk.Tokenize([]byte(c11DeepProbe()))
+	if err != nil {
+		return out + "|tokerr:" + err.Error()
+	}
+	if _, err := p.ParseFromModelTokens(toks); err != nil {
+		return out + "|deep-rejected:" + firstLine(err.Error())
+	}
+	return out + "|deep-accepted"
+}
+
+var c11DeepSQL string
+
+// c11DeepProbe returns the most deeply parenthesised SELECT that a fresh parser accepts.
+func c11DeepProbe() string {
+	if c11DeepSQL != "" {
+		return c11DeepSQL
+	}
+	best := "SELECT (1)"
+	for d := 2; d <= 200; d++ {
+		s := "SELECT " + strings.Repeat("(", d) + "1" + strings.Repeat(")", d)
+		if _, err := gosqlx.Parse(s); err != nil {
+			break
+		}
+		best = s
+	}
+	c11DeepSQL = best
+	return best
 }
 
 func c11Inputs(r *rand.Rand, g *gen.G, i int) string {
